@@ -36,6 +36,12 @@ Proof.
   rewrite <- E. apply in_map. tauto.
 Qed.
 
+Lemma NoDup_app_l : forall (A : Type) (l1 l2 : list A), NoDup (l1 ++ l2) -> NoDup l1.
+Proof.
+  intros A l1. induction l1 as [|x l IH]; intros l2 N; [constructor|].
+  cbn in N. inv N. constructor; [|eapply IH; eauto]. intros H. apply H1. apply in_or_app. auto.
+Qed.
+
 (* ---- the scan ---------------------------------------------------------------------------- *)
 Lemma scan_spec : forall c bu ts seen t, In t (scan c bu seen ts) ->
   In t ts /\ is_queued t = true /\ offline c (tuser t) = false /\
@@ -180,7 +186,7 @@ Proof.
   assert (N : NoDup (map tuser (prioritize c (eligible c ts)))).
   { eapply Permutation_NoDup; [apply Permutation_map; symmetry; apply prioritize_perm|apply scan_nodup]. }
   rewrite <- (firstn_skipn (free c ts) (prioritize c (eligible c ts))), map_app in N.
-  apply NoDup_app_remove_r in N. exact N.
+  apply NoDup_app_l in N. exact N.
 Qed.
 
 Lemma select_bound : forall c ts,
@@ -244,4 +250,328 @@ Lemma rank_lexicographic : forall s1 s2 f1 f2 p1 p2,
 Proof.
   intros s1 s2 f1 f2 p1 p2. cbn zeta.
   destruct s1, s2, f1, f2, p1, p2; vm_compute; repeat split; intros; try discriminate; lia.
+Qed.
+
+(* ---- the cycle machine --------------------------------------------------------------------- *)
+Definition ids_ok (ts : list transfer) : Prop := map tid ts = seq 0 (length ts).
+
+Record Inv (s : mstate) : Prop := mkInv {
+  inv_ids : ids_ok (mts s);
+  inv_one : forall t1 t2, In t1 (mts s) -> In t2 (mts s) -> busy t1 = true -> busy t2 = true ->
+            tuser t1 = tuser t2 -> tid t1 = tid t2;
+  inv_cnt : n_busy s <= slots (mcfg s) \/ forall t, In t (mts s) -> busy t = true -> told t = true }.
+
+Lemma ids_nodup : forall ts, ids_ok ts -> NoDup (map tid ts).
+Proof. intros ts H. rewrite H. apply seq_NoDup. Qed.
+
+Lemma filter_le : forall (A : Type) (p q : A -> bool) l,
+  (forall x, In x l -> p x = true -> q x = true) -> length (filter p l) <= length (filter q l).
+Proof.
+  intros A p q l. induction l as [|x l IH]; intros H; cbn; [lia|].
+  assert (IH' : length (filter p l) <= length (filter q l)) by (apply IH; intros; apply H; cbn; auto).
+  destruct (p x) eqn:E.
+  - rewrite (H x (or_introl eq_refl) E). cbn. lia.
+  - destruct (q x); cbn; lia.
+Qed.
+
+Lemma filter_map_le : forall (A : Type) (p : A -> bool) g l,
+  (forall x, In x l -> p (g x) = true -> p x = true) -> length (filter p (map g l)) <= length (filter p l).
+Proof.
+  intros A p g l. induction l as [|x l IH]; intros H; cbn; [lia|].
+  assert (IH' : length (filter p (map g l)) <= length (filter p l)) by (apply IH; intros; apply H; cbn; auto).
+  destruct (p (g x)) eqn:E.
+  - rewrite (H x (or_introl eq_refl) E). cbn. lia.
+  - destruct (p x); cbn; lia.
+Qed.
+
+Definition keeps (g : transfer -> transfer) : Prop :=
+  forall t, tid (g t) = tid t /\ tuser (g t) = tuser t /\ (busy (g t) = true -> busy t = true /\ told (g t) = told t).
+
+Lemma map_tid : forall g ts, (forall t, tid (g t) = tid t) -> map tid (map g ts) = map tid ts.
+Proof. intros g ts H. rewrite map_map. apply map_ext. exact H. Qed.
+
+Lemma map_inv : forall g c ts, keeps g -> Inv (mkS c ts) -> Inv (mkS c (map g ts)).
+Proof.
+  intros g c ts K [I1 I2 I3]. cbn in *. constructor; cbn.
+  - unfold ids_ok in *. rewrite map_tid, map_length; [exact I1|intros; apply K].
+  - intros t1 t2 H1 H2 B1 B2 E. apply in_map_iff in H1, H2.
+    destruct H1 as (a & <- & Ha), H2 as (b & <- & Hb).
+    destruct (K a) as (Ka1 & Ka2 & Ka3), (K b) as (Kb1 & Kb2 & Kb3).
+    rewrite Ka1, Kb1. apply I2; auto; try tauto. congruence.
+  - unfold n_busy in *. cbn in *. destruct I3 as [L|R].
+    + left. etransitivity; [|exact L]. apply filter_map_le. intros x _ H. apply K. exact H.
+    + right. intros t Ht B. apply in_map_iff in Ht. destruct Ht as (a & <- & Ha).
+      destruct (K a) as (_ & _ & K3). destruct (K3 B) as (Ba & ->). auto.
+Qed.
+
+Lemma keeps_upd : forall k f, keeps f -> keeps (fun t => if tid t =? k then f t else t).
+Proof. intros k f K t. destruct (tid t =? k); [apply K|tauto]. Qed.
+
+Ltac keeps_tac := intros [i u st o]; destruct st; cbn; intuition congruence.
+
+Lemma keeps_requeue : keeps (fun t => match tst t with Other => set_st Queued t | _ => t end).
+Proof. keeps_tac. Qed.
+Lemma keeps_first : keeps (fun t => match tst t with Starting => set_st Init t | _ => t end).
+Proof. keeps_tac. Qed.
+Lemma keeps_fin : forall r, keeps (fin_target r).
+Proof. intros r. destruct r; keeps_tac. Qed.
+Lemma keeps_abort : keeps (set_st Other).
+Proof. keeps_tac. Qed.
+
+Lemma no_starting_busy : forall ts, no_starting ts = true -> forall t, In t ts -> busy t = processing t.
+Proof.
+  intros ts H t Ht. unfold no_starting in H. rewrite forallb_forall in H. specialize (H t Ht).
+  unfold busy, processing. destruct (tst t); try reflexivity; discriminate.
+Qed.
+
+Lemma mark_nil : forall ts, mark [] ts = ts.
+Proof. intros ts. unfold mark. cbn. rewrite <- (map_id ts) at 2. apply map_ext. reflexivity. Qed.
+
+Lemma marked_in_sel : forall c ts t, ids_ok ts -> In t ts ->
+  memb (tid t) (map tid (select c ts)) = true -> In t (select c ts).
+Proof.
+  intros c ts t I Ht M. apply memb_In in M. apply in_map_iff in M. destruct M as (s1 & E & Hs).
+  assert (In s1 ts) by (apply (select_bound c ts); exact Hs).
+  assert (s1 = t) by (eapply NoDup_map_inj; [apply ids_nodup; exact I| | |]; auto).
+  subst. exact Hs.
+Qed.
+
+Lemma marked_count : forall ids ts, NoDup (map tid ts) ->
+  length (filter (fun t => memb (tid t) ids) ts) <= length ids.
+Proof.
+  intros ids ts N. rewrite <- (map_length tid). apply NoDup_incl_length.
+  - apply NoDup_map_filter. exact N.
+  - intros x Hx. apply in_map_iff in Hx. destruct Hx as (t & <- & Ht). apply filter_In in Ht.
+    apply memb_In. tauto.
+Qed.
+
+Lemma busy_mark_le : forall ids ts,
+  length (filter busy (mark ids ts)) <= length (filter busy ts) + length (filter (fun t => memb (tid t) ids) ts).
+Proof.
+  intros ids ts. unfold mark. induction ts as [|t r IH]; cbn; [lia|].
+  destruct (memb (tid t) ids) eqn:M; cbn.
+  - destruct (busy t); cbn; lia.
+  - destruct (busy t); cbn; lia.
+Qed.
+
+Lemma cycle_inv : forall c ts, Inv (mkS c ts) -> no_starting ts = true ->
+  Inv (mkS c (mark (map tid (select c ts)) ts)).
+Proof.
+  intros c ts [I1 I2 I3] NS. cbn in *.
+  set (ids := map tid (select c ts)).
+  assert (G : forall t, In t ts -> busy (if memb (tid t) ids then set_st Starting t else t) = true ->
+              (In t (select c ts)) \/ (memb (tid t) ids = false /\ busy t = true)).
+  { intros t Ht B. destruct (memb (tid t) ids) eqn:M; [left; apply marked_in_sel; auto|right; auto]. }
+  constructor; cbn.
+  - unfold ids_ok, mark in *. rewrite map_tid, map_length; [exact I1|].
+    intros t. destruct (memb (tid t) ids); reflexivity.
+  - intros t1 t2 H1 H2 B1 B2 E. unfold mark in H1, H2. apply in_map_iff in H1, H2.
+    destruct H1 as (a & <- & Ha), H2 as (b & <- & Hb).
+    assert (Ta : forall t, tid (if memb (tid t) ids then set_st Starting t else t) = tid t /\
+                           tuser (if memb (tid t) ids then set_st Starting t else t) = tuser t).
+    { intros t. destruct (memb (tid t) ids); cbn; auto. }
+    destruct (Ta a) as (-> & Ua), (Ta b) as (-> & Ub). rewrite Ua, Ub in E.
+    destruct (G a Ha B1) as [Sa|(Ma & Ba)], (G b Hb B2) as [Sb|(Mb & Bb)].
+    + f_equal. apply (NoDup_map_inj _ _ tuser (select c ts)); [apply select_nodup_users|exact Sa|exact Sb|exact E].
+    + exfalso. destruct (select_bound c ts) as (_ & _ & S). destruct (S a Sa) as (_ & _ & _ & _ & _ & Nb).
+      apply Nb. rewrite E. unfold busy_users. apply in_map. apply filter_In. split; [exact Hb|].
+      rewrite <- (no_starting_busy ts NS b Hb). exact Bb.
+    + exfalso. destruct (select_bound c ts) as (_ & _ & S). destruct (S b Sb) as (_ & _ & _ & _ & _ & Nb).
+      apply Nb. rewrite <- E. unfold busy_users. apply in_map. apply filter_In. split; [exact Ha|].
+      rewrite <- (no_starting_busy ts NS a Ha). exact Ba.
+    + apply I2; auto.
+  - unfold n_busy in *. cbn in *. destruct (free c ts) eqn:F.
+    + assert (E : ids = []). { unfold ids. rewrite select_firstn, F. reflexivity. }
+      rewrite E, mark_nil. exact I3.
+    + left. pose proof (busy_mark_le ids ts) as L1.
+      pose proof (marked_count ids ts (ids_nodup ts I1)) as L2.
+      assert (L3 : length ids <= S n).
+      { unfold ids. rewrite map_length. rewrite <- F. apply select_bound. }
+      assert (L4 : length (filter busy ts) = length (filter processing ts)).
+      { f_equal. apply filter_ext_in. intros t Ht. apply (no_starting_busy ts); auto. }
+      unfold free in F. lia.
+Qed.
+
+Lemma setslots_inv : forall c ts n, Inv (mkS c ts) ->
+  Inv (mkS (mkCfg n (info c)) (map (fun t => mkT (tid t) (tuser t) (tst t) (busy t)) ts)).
+Proof.
+  intros c ts n [I1 I2 I3]. cbn in *. constructor; cbn.
+  - unfold ids_ok in *. rewrite map_tid, map_length; [exact I1|reflexivity].
+  - intros t1 t2 H1 H2 B1 B2 E. apply in_map_iff in H1, H2.
+    destruct H1 as (a & <- & Ha), H2 as (b & <- & Hb). cbn in *. apply I2; auto.
+  - right. intros t Ht B. apply in_map_iff in Ht. destruct Ht as (a & <- & Ha). cbn in *. exact B.
+Qed.
+
+Lemma queue_inv : forall c ts u, Inv (mkS c ts) -> Inv (mkS c (ts ++ [mkT (length ts) u Queued false])).
+Proof.
+  intros c ts u [I1 I2 I3]. cbn in *. constructor; cbn.
+  - unfold ids_ok in *. rewrite map_app, app_length, seq_app, I1. reflexivity.
+  - intros t1 t2 H1 H2 B1 B2 E. apply in_app_or in H1, H2.
+    destruct H1 as [H1|[<-|[]]], H2 as [H2|[<-|[]]]; try discriminate. apply I2; auto.
+  - unfold n_busy in *. cbn in *. rewrite filter_app. cbn. rewrite app_nil_r. destruct I3 as [L|R]; [left; exact L|right].
+    intros t Ht B. apply in_app_or in Ht. destruct Ht as [Ht|[<-|[]]]; [auto|discriminate].
+Qed.
+
+Lemma step_inv : forall s e, Inv s -> (e = Cycle -> no_starting (mts s) = true) -> Inv (fst (step s e)).
+Proof.
+  intros [c ts] e I A. destruct e; cbn [step fst mcfg mts] in *.
+  - apply queue_inv. exact I.
+  - apply map_inv; [apply keeps_upd, keeps_requeue|exact I].
+  - apply cycle_inv; auto.
+  - apply map_inv; [apply keeps_upd, keeps_first|exact I].
+  - apply map_inv; [apply keeps_first|exact I].
+  - apply map_inv; [apply keeps_upd, keeps_fin|exact I].
+  - apply map_inv; [apply keeps_upd, keeps_abort|exact I].
+  - apply setslots_inv. exact I.
+  - destruct I as [I1 I2 I3]. constructor; auto.
+  - destruct I as [I1 I2 I3]. constructor; auto.
+Qed.
+
+Lemma run_inv : forall evs s, Inv s -> a1 s evs = true -> Inv (run s evs).
+Proof.
+  intros evs. induction evs as [|e r IH]; intros s I A; [exact I|].
+  cbn [a1] in A. apply andb_true_iff in A. destruct A as (A1 & A2). cbn [run].
+  apply IH; [|exact A2]. apply step_inv; [exact I|]. intros ->. exact A1.
+Qed.
+
+Lemma init_inv : forall n, Inv (init n).
+Proof. intros n. constructor; cbn; [reflexivity|intros ? ? []|left; lia]. Qed.
+
+Lemma processing_busy : forall t, processing t = true -> busy t = true.
+Proof. intros t. unfold processing, busy. destruct (tst t); auto. Qed.
+
+Lemma nodup_users : forall ts, NoDup (map tid ts) ->
+  (forall t1 t2, In t1 ts -> In t2 ts -> processing t1 = true -> processing t2 = true ->
+     tuser t1 = tuser t2 -> tid t1 = tid t2) ->
+  NoDup (map tuser (filter processing ts)).
+Proof.
+  intros ts. induction ts as [|a r IH]; intros N H; cbn; [constructor|].
+  cbn in N. apply NoDup_cons_iff in N. destruct N as (Na & Nr).
+  assert (IH' : NoDup (map tuser (filter processing r))) by (apply IH; auto; intros; apply H; cbn; auto).
+  destruct (processing a) eqn:P; [|exact IH']. cbn. constructor; [|exact IH'].
+  intros Hin. apply in_map_iff in Hin. destruct Hin as (t & E & Ht). apply filter_In in Ht. destruct Ht as (Ht & Pt).
+  apply Na. rewrite <- (H t a); cbn; auto. apply in_map. exact Ht.
+Qed.
+
+Lemma slots_inv : forall evs s, Inv s -> a1 s evs = true ->
+  let s' := run s evs in
+  (n_processing s' <= slots (mcfg s') \/
+   forall t, In t (mts s') -> processing t = true -> told t = true) /\
+  NoDup (map tuser (filter processing (mts s'))).
+Proof.
+  intros evs s I A s'. pose proof (run_inv evs s I A) as [I1 I2 I3]. fold s' in I1, I2, I3. split.
+  - destruct I3 as [L|R].
+    + left. unfold n_processing, n_busy in *. etransitivity; [|exact L].
+      apply filter_le. intros x _. apply processing_busy.
+    + right. intros t Ht P. apply R; auto. apply processing_busy. exact P.
+  - apply nodup_users; [apply ids_nodup; exact I1|].
+    intros t1 t2 H1 H2 P1 P2 E. apply I2; auto using processing_busy.
+Qed.
+
+Lemma slots_inv_refuted : exists evs,
+  let s' := run (init 1) evs in
+  slots (mcfg s') < n_processing s' /\ (forall t, In t (mts s') -> told t = false) /\ slots_ok s' = false.
+Proof.
+  exists [Queue 0; Queue 1; Cycle; Friend 0 true; Cycle; FirstAll]. vm_compute. split; [lia|]. split; [|reflexivity].
+  intros t [<-|[<-|[]]]; reflexivity.
+Qed.
+
+(* ---- finite-population progress -------------------------------------------------------------- *)
+Definition idle (s : mstate) : Prop := forall t, In t (mts s) -> busy t = false.
+
+Lemma filter_map_le2 : forall (A : Type) (p p' : A -> bool) g l,
+  (forall x, In x l -> p' (g x) = true -> p x = true) -> length (filter p' (map g l)) <= length (filter p l).
+Proof.
+  intros A p p' g l. induction l as [|x l IH]; intros H; cbn; [lia|].
+  assert (IH' : length (filter p' (map g l)) <= length (filter p l)) by (apply IH; intros; apply H; cbn; auto).
+  destruct (p' (g x)) eqn:E.
+  - rewrite (H x (or_introl eq_refl) E). cbn. lia.
+  - destruct (p x); cbn; lia.
+Qed.
+
+Lemma filter_map_lt : forall (A : Type) (p p' : A -> bool) g l x0,
+  (forall x, In x l -> p' (g x) = true -> p x = true) -> In x0 l -> p x0 = true -> p' (g x0) = false ->
+  length (filter p' (map g l)) < length (filter p l).
+Proof.
+  intros A p p' g l. induction l as [|x l IH]; intros x0 H H0 P P'; [destruct H0|].
+  cbn. destruct H0 as [->|H0].
+  - rewrite P, P'. cbn. apply Nat.lt_succ_r. apply filter_map_le2. intros; apply H; cbn; auto.
+  - assert (IH' : length (filter p' (map g l)) < length (filter p l)) by (eapply IH; eauto; intros; apply H; cbn; auto).
+    destruct (p' (g x)) eqn:E.
+    + rewrite (H x (or_introl eq_refl) E). cbn. lia.
+    + destruct (p x); cbn; lia.
+Qed.
+
+Definition round_fun (ids : list nat) (t : transfer) : transfer :=
+  let t1 := if memb (tid t) ids then set_st Starting t else t in
+  let t2 := match tst t1 with Starting => set_st Init t1 | _ => t1 end in
+  match tst t2 with Init | Uploading => set_st Other t2 | _ => t2 end.
+
+Lemma round_eq : forall s, round s = mkS (mcfg s) (map (round_fun (map tid (select (mcfg s) (mts s)))) (mts s)).
+Proof.
+  intros [c ts]. unfold round. cbn. f_equal. unfold finish_all, mark. rewrite !map_map. reflexivity.
+Qed.
+
+Lemma round_fun_spec : forall ids t,
+  tid (round_fun ids t) = tid t /\ tuser (round_fun ids t) = tuser t /\ busy (round_fun ids t) = false /\
+  (is_queued (round_fun ids t) = true -> is_queued t = true /\ memb (tid t) ids = false).
+Proof.
+  intros ids [i u st o]. unfold round_fun. cbn [tid]. destruct (memb i ids); destruct st; cbn; intuition congruence.
+Qed.
+
+Lemma idle_no_processing : forall s, idle s -> filter processing (mts s) = [].
+Proof.
+  intros s. unfold idle. induction (mts s) as [|t r IH]; intros I; [reflexivity|]. cbn.
+  destruct (processing t) eqn:P.
+  - apply processing_busy in P. rewrite (I t) in P; [discriminate|cbn; auto].
+  - apply IH. intros y Hy. apply I. cbn. auto.
+Qed.
+
+Lemma round_progress : forall s, idle s -> 1 <= slots (mcfg s) ->
+  idle (round s) /\ mcfg (round s) = mcfg s /\
+  (0 < n_waiting s -> n_waiting (round s) < n_waiting s) /\ n_waiting (round s) <= n_waiting s.
+Proof.
+  intros s I S. rewrite round_eq. cbn [mcfg mts]. set (ids := map tid (select (mcfg s) (mts s))).
+  assert (M : forall x, In x (mts s) ->
+     is_queued (round_fun ids x) && negb (offline (mcfg s) (tuser (round_fun ids x))) = true ->
+     is_queued x && negb (offline (mcfg s) (tuser x)) = true).
+  { intros x _ H. destruct (round_fun_spec ids x) as (_ & U & _ & Q). rewrite U in H.
+    apply andb_true_iff in H. destruct H as (H1 & H2). rewrite (proj1 (Q H1)), H2. reflexivity. }
+  split; [|split; [reflexivity|split]].
+  - intros t Ht. cbn in Ht. apply in_map_iff in Ht. destruct Ht as (a & <- & _). apply round_fun_spec.
+  - intros W. unfold n_waiting in *. cbn [mcfg mts].
+    (* some waiting upload exists, so its user is eligible and the selection is non-empty *)
+    destruct (filter (fun t => is_queued t && negb (offline (mcfg s) (tuser t))) (mts s)) as [|w r] eqn:F; [cbn in W; lia|].
+    assert (Hw : In w (mts s) /\ is_queued w && negb (offline (mcfg s) (tuser w)) = true).
+    { apply (filter_In (fun t => is_queued t && negb (offline (mcfg s) (tuser t))) w (mts s)). rewrite F. cbn. auto. }
+    destruct Hw as (Hw1 & Hw2). apply andb_true_iff in Hw2. destruct Hw2 as (Q & O). apply negb_true_iff in O.
+    pose proof (idle_no_processing s I) as NP.
+    assert (EU : eligible_user (mcfg s) (mts s) (tuser w)).
+    { split; [exact O|]. split; [unfold busy_users; rewrite NP; intros []|]. exists w. auto. }
+    assert (Fr : 0 < free (mcfg s) (mts s)) by (unfold free; rewrite NP; cbn; lia).
+    destruct (work_conserving (mcfg s) (mts s)) as (_ & _ & _ & WC).
+    specialize (WC _ Fr EU).
+    assert (Ex : exists t0, In t0 (select (mcfg s) (mts s))).
+    { destruct (select (mcfg s) (mts s)) as [|t0 sel]; [congruence|exists t0; cbn; auto]. }
+    destruct Ex as (t0 & S0).
+    destruct (select_bound (mcfg s) (mts s)) as (_ & _ & SB). destruct (SB t0 S0) as (T1 & _ & _ & T2 & T3 & _).
+    rewrite <- F.
+    apply (filter_map_lt _ _ _ _ _ t0); auto.
+    + rewrite T2, T3. reflexivity.
+    + destruct (round_fun_spec ids t0) as (_ & _ & _ & Q0).
+      destruct (is_queued (round_fun ids t0)) eqn:E; [|reflexivity].
+      destruct (Q0 eq_refl) as (_ & Mf). exfalso.
+      assert (Mt : memb (tid t0) ids = true) by (apply memb_In; unfold ids; apply in_map; exact S0).
+      congruence.
+  - unfold n_waiting. cbn [mcfg mts]. apply filter_map_le2. exact M.
+Qed.
+
+Lemma progress : forall n s, idle s -> 1 <= slots (mcfg s) ->
+  n_waiting (rounds n s) <= n_waiting s - n.
+Proof.
+  intros n. induction n as [|n IH]; intros s I S; cbn [rounds]; [lia|].
+  destruct (round_progress s I S) as (I' & C' & Lt & Le).
+  assert (S' : 1 <= slots (mcfg (round s))) by (rewrite C'; exact S).
+  specialize (IH (round s) I' S').
+  destruct (Nat.eq_dec (n_waiting s) 0) as [Z|NZ]; [lia|]. specialize (Lt ltac:(lia)). lia.
 Qed.
